@@ -4,3 +4,6 @@ package lgen
 func Core() *Profile {
 	return &Profile{Name: "core", MaxStmts: 22, MaxDepth: 4, Wild: 12, WildOpen: 4, Stress: 5}
 }
+
+// AllProfiles lists every profile (used by checks that want any program the generator can produce).
+func AllProfiles() []*Profile { return []*Profile{Core()} }
